@@ -10,7 +10,7 @@ from pathlib import Path
 
 VERIF = Path(__file__).resolve().parent.parent
 SEEDED = VERIF / "seeded"
-EXTRA = {"C02-m2": ["C02", "C10"], "C06-m1": ["C06", "C07"], "C07-m2": ["C07", "C06"], "C17-m3": ["C17", "C02"]}
+EXTRA = {"C05-t2": ["C05", "C10"], "C02-m2": ["C02", "C10"], "C06-m1": ["C06", "C07"], "C07-m2": ["C07", "C06"], "C17-m3": ["C17", "C02"]}
 
 
 def report():
@@ -23,7 +23,7 @@ def report():
                      meta.get("summary", "")[:160].replace("\n", " ").replace("|", "/")))
     out = ["# Seeded changes vs checks (quick tier, latest recorded run of each)", "",
            "Each change compiles, passes the repository's 112 tests and breaks the named property (demo.py).",
-           "m = first round of sub-agents, n = second round (asked for subtler changes).", "",
+           "m, n, r, s, t = first ... fifth round of sub-agents (each round was told what the earlier ones had done and asked for subtler changes).", "",
            "| change | result | what it does |", "|---|---|---|"]
     out += [f"| {a} | {b} | {c} |" for a, b, c in rows]
     (SEEDED / "MATRIX.md").write_text("\n".join(out) + "\n")
